@@ -45,6 +45,7 @@ type Local struct {
 	CIdx        int    // number of chain-relevant yields (all but the routing hooks S1,S2,S3,S6)
 	CancelAt    int    // plan: cancel at the first yield with CIdx >= CancelAt; <0: none
 	CancelledAt int    // CIdx at which a cancel was delivered; <0: none
+	CancelSite  int    // yield site at which it was delivered
 	Cancel      func() // cancels the request context
 	SoloCap     int    // solo mode: abort after this many yields (0: no cap)
 	Sites       []uint8
@@ -71,11 +72,12 @@ func (l *Local) step(site int) {
 	}
 }
 
-func (l *Local) deliverCancel() {
+func (l *Local) deliverCancel(site int) {
 	if l.CancelledAt >= 0 || l.Cancel == nil {
 		return
 	}
 	l.CancelledAt = l.CIdx
+	l.CancelSite = site
 	l.Cancel()
 }
 
@@ -202,7 +204,7 @@ func Yield(site int) {
 			panic(Abort{})
 		}
 		if l.CancelAt >= 0 && l.CIdx >= l.CancelAt {
-			l.deliverCancel()
+			l.deliverCancel(site)
 		}
 		return
 	}
@@ -222,7 +224,7 @@ func Yield(site int) {
 	}
 	if l != nil {
 		if cmd&CmdCancel != 0 || (l.CancelAt >= 0 && l.CIdx >= l.CancelAt) {
-			l.deliverCancel()
+			l.deliverCancel(site)
 		}
 	}
 }
